@@ -583,13 +583,15 @@ impl From<Vec<OrderedFloat<f64>>> for DataSection {
 
 fn decode<'a>(codec: &Codec, sections: &[&'a dyn Data<'a>]) -> BoxedData<'a> {
     let mut section_stack: Vec<BoxedData<'a>> = vec![sections[0].slice_box(0, sections[0].len())];
+    // The null map is attached after all other ops have been applied: ops following `Nullable`
+    // (`ToI64`, `Add`) rebuild the value vector and would otherwise drop the null map.
+    let mut present: Option<BoxedData<'a>> = None;
     for codec_op in codec.ops() {
         let arg0 = section_stack.first().unwrap();
         let decoded = match codec_op {
             CodecOp::Nullable => {
-                let present = section_stack.pop().unwrap();
-                let mut data = section_stack.pop().unwrap();
-                data.make_nullable(present.cast_ref_u8())
+                present = Some(section_stack.pop().unwrap());
+                continue;
             }
             CodecOp::Add(encoding_type, value) => match encoding_type {
                 EncodingType::U8 => Box::new(
@@ -819,5 +821,9 @@ fn decode<'a>(codec: &Codec, sections: &[&'a dyn Data<'a>]) -> BoxedData<'a> {
         section_stack.push(decoded);
     }
 
-    section_stack.pop().unwrap()
+    let mut decoded = section_stack.pop().unwrap();
+    match present {
+        Some(present) => decoded.make_nullable(present.cast_ref_u8()),
+        None => decoded,
+    }
 }
